@@ -21,6 +21,7 @@ LEAF = [
     ("elias", "varintElias.c", ["floorLog2", "varintEliasGammaBits", "varintEliasGammaMaxBytes",
                                 "varintEliasDeltaMaxBytes"]),
     ("for", "varintFOR.c", ["varintFORComputeWidth"]),
+    ("bp128", "varintBP128.c", ["varintBP128BitsNeeded32", "varintBP128BitsNeeded64"]),
 ]
 
 
